@@ -26,6 +26,10 @@ from harness.core import Failure, Prop
 POOL = ['p0', 'p1', 'p2', 'p3', 'p4', 'p5', 'p10', 'p1.x', 'a-b', '_t', 'Q', 'p01']
 # functions the corpus and the chain / ring scenarios name explicitly (asserted against the live registry)
 CORE_FUNCS = ['ADD', 'MUL', 'IF', 'MIN', 'NOT', 'ABS', 'SUB']
+# functions that are cheap to evaluate whatever their arguments: only these are used in cases that run with the hub's
+# update mechanism (expression evaluation) switched on; cases drawing from the whole registry run with it switched off
+# (core.main.disable_updating(), as PUT /ports does) — e.g. BOM(BOY(100)) would count months for minutes
+CHEAP_FUNCS = ['ABS', 'ADD', 'AND', 'AVAILABLE', 'DEFAULT', 'DELAY', 'EQ', 'HYST', 'IF', 'MAX', 'MIN', 'MUL', 'NOT', 'OR', 'SUB']
 _FUNC_TABLE = None
 
 
@@ -285,7 +289,8 @@ class C04(Prop):
                 args[pos] = ['v', 'p1']
                 f = ['c', name, args]
                 for t in (f, ['c', 'ADD', [f, ['l', '1']]]):
-                    cases.append({'ops': [['add', 'p0'], ['add', 'p1'], ['set', 'p0', t, 0],
+                    cases.append({'eval': False,
+                                  'ops': [['add', 'p0'], ['add', 'p1'], ['set', 'p0', t, 0],
                                           ['set', 'p1', ['c', 'MUL', [['v', 'p0'], ['l', '2']]], 0],
                                           ['check', 'p1', ['v', 'p0'], 0]]})
         return cases
@@ -356,7 +361,8 @@ class C04(Prop):
         nops = rng.randint(6, maxops)
         ids = rng.sample(POOL, rng.choice([2, 3, 4, 5, 6, 7, 8, 9, 10, 10]))
         funcs = function_table()
-        fnames = sorted(funcs)
+        with_eval = rng.random() < 0.35
+        fnames = sorted(n for n in funcs if not with_eval or n in CHEAP_FUNCS)
         live, graph, trees = [], {}, {}       # generator's own shadow of the hub, only used to steer the choices
         stash = {}                            # absent ports with a persisted record: id -> tree or None
         ops = []
@@ -624,9 +630,14 @@ class C04(Prop):
                 shadow_set(i, t)
             else:
                 do_add(rng.choice(ids))
-        return {'ops': ops}
+        return {'ops': ops, 'eval': with_eval}
 
     def shrink_candidates(self, case):
+        for cand in self._shrink_ops(case):
+            cand['eval'] = case.get('eval', True)
+            yield cand
+
+    def _shrink_ops(self, case):
         ops = case['ops']
         n = len(ops)
         for size in (n // 2, n // 4, 2, 1):
@@ -790,6 +801,14 @@ class C04(Prop):
 
     async def _real(self, case):
         await self._reset()
+        if not case.get('eval', True):
+            self.core_main.disable_updating()       # no expression is ever evaluated in this case
+        try:
+            return await self._real_ops(case)
+        finally:
+            self.core_main.enable_updating()
+
+    async def _real_ops(self, case):
         stash = []          # ids of absent ports whose persisted record is kept, newest first
         h, api = self.handler, self.api_ports
         obs = []
@@ -839,7 +858,11 @@ class C04(Prop):
                             out = 'loop'
                 elif kind == 'restore':
                     stash = []          # put_ports clears every persisted port record (core.ports.reset)
-                    await api.put_ports(h, [self.entry_json(en) for en in op[1]])
+                    try:
+                        await api.put_ports(h, [self.entry_json(en) for en in op[1]])
+                    finally:
+                        if not case.get('eval', True):
+                            self.core_main.disable_updating()       # put_ports switches it back on when it is done
                 elif kind == 'seq':
                     try:
                         await api.patch_port_sequence(h, op[1], {'values': [1, 2, 3], 'delays': [60000, 60000, 60000],
